@@ -1,6 +1,7 @@
 package main
 
 import (
+	"bytes"
 	"fmt"
 	"regexp"
 	"regexp/syntax"
@@ -42,7 +43,46 @@ func checkC10(r *Report, known []Finding) {
 		"earlier branch is a prefix of a later one under every strategy template, corpus/mutation/grammar patterns; isolation: Longest on a Copy or on a second Regex of the same pattern leaves " +
 		"the first in leftmost-first mode; non-trivial = a match exists; distinct by pattern"
 	obs := []Obs{obsMatch()[0], obsFind()[0], obsSubmatch()[0], obsFindAll([]int{-1})[0], obsReplace([]string{"<$0>"})[1]}
-	runE2E(r, known, e2eSpec{prop: "C10", obs: obs, longest: true, np: 4000, nh: 10, npT: 18000, nhT: 14, nontriv: func(w string) bool { return w != "nil" && w != "false" }})
+	obs = append(obs, obsReplace([]string{"X"})[1], obsReplace([]string{"X"})[3]) // the literal replacement loops search on their own path (no captures)
+	obs = append(obs, obsSplit([]int{-1})...)
+	obs = append(obs, Obs{"Count", func(re StdAPI, h []byte) string {
+		if cx, ok := re.(*coregex.Regex); ok {
+			return fmt.Sprint(cx.Count(h, -1))
+		}
+		return fmt.Sprint(len(re.FindAllIndex(h, -1)))
+	}})
+	// shapes for which the mode matters on the paths that have their own engines: lazy quantifiers and prefix alternations under the
+	// backtracker strategy (ASCII variant: patterns with a dot), the DFA strategies (Count / FindAll loops) and start-anchored forms
+	probes := []string{`^.*?b`, `^.+?b`, `.*?b`, `^a.*?b`, `(?s)^.*?x`, `[ab]|[ab][ab]`, `[a-c]x|[a-c]x[a-c]`, `x[ab]|x[ab][ab]c`, `foo\d|foo\d\dz?`, `[a-z]+?`, `[a-z]??[a-z][0-9]*?`,
+		`(a|ab)(c|bcd)`, `\w+?\s`, `^(?:a|ab)+?`, `.+?`, `(?:.|ab)+?c?`}
+	runE2E(r, known, e2eSpec{prop: "C10", obs: obs, longest: true, np: 4000, nh: 10, npT: 18000, nhT: 14, probes: probes, nontriv: func(w string) bool { return w != "nil" && w != "false" }})
+	// inputs beyond the capacity of the bounded backtracker (32M visited entries): the fallback engines must honour the mode as well
+	{
+		tb := r.Tie("longest mode on inputs larger than the bounded backtracker's capacity == regexp")
+		for _, c := range []struct {
+			p    string
+			n    int
+			tail string
+		}{{`[a-z]+?`, 7 << 20, "5b"}, {`[a-z]??[a-z][0-9]*?`, 7 << 20, ""}} {
+			std := regexp.MustCompile(c.p)
+			std.Longest()
+			cx, err := coregex.Compile(c.p)
+			if err != nil {
+				continue
+			}
+			cx.Longest()
+			h := append(bytes.Repeat([]byte("a"), c.n), c.tail...)
+			want := fmt.Sprint(std.FindIndex(h))
+			got := guard(240*time.Second, func() string { return fmt.Sprint(cx.FindIndex(h)) })
+			tb.Cases++
+			r.Case("big\x00"+c.p, true)
+			if got != want {
+				tb.Disagreements++
+				r.Violate(fmt.Sprintf("FindIndex of %q with Longest() on %d x \"a\" + %q: coregex=%s regexp=%s", c.p, c.n, c.tail, got, want),
+					map[string]any{"pattern": c.p, "haystack": fmt.Sprintf("%d x 'a' + %q", c.n, c.tail), "longest": true, "coregex": got, "regexp": want}, false)
+			}
+		}
+	}
 	// isolation
 	t := r.Tie("Longest() on a Copy / a second value does not change the first")
 	root := NewRNG(r.Seed ^ 0x10)
@@ -103,6 +143,9 @@ func checkC11(r *Report, known []Finding) {
 			for i := range jobs {
 				rng := root.Fork(uint64(i) + 1)
 				p := patternSource(rng, i, GenOpts{MaxDepth: 3})
+				if i < len(thresholdProbes) {
+					p = thresholdProbes[i]
+				}
 				if _, err := regexp.Compile(p); err != nil {
 					continue
 				}
@@ -125,6 +168,11 @@ func checkC11(r *Report, known []Finding) {
 				var local []dis
 				for k := 0; k < nh; k++ {
 					h := GenHaystack(rng, ast, false)
+					if i < len(thresholdProbes) && k < 3 {
+						if sh := GenStretched(rng, ast); sh != nil {
+							h = sh
+						}
+					}
 					if k == nh-1 { // large input: window logic, caches
 						var big []byte
 						target := 4096 << uint(rng.Intn(5))
@@ -325,6 +373,9 @@ func checkC12(r *Report, known []Finding) {
 			for i := range jobs {
 				rng := root.Fork(uint64(i) + 1)
 				p := patternSource(rng, i, GenOpts{MaxDepth: 3})
+				if probes := limitProbePatterns(); i < len(probes) {
+					p = probes[i] // shapes aimed at the literal limits run first, under every configuration
+				}
 				if _, err := regexp.Compile(p); err != nil {
 					continue
 				}
@@ -345,8 +396,34 @@ func checkC12(r *Report, known []Finding) {
 				for k := 0; k < nh; k++ {
 					hays = append(hays, GenHaystack(rng, ast, false))
 				}
+				if i < len(limitProbePatterns()) {
+					// the probes need every branch of their alternation in some haystack: distinct unmutated samples of the language
+					seenS := map[string]bool{}
+					for k := 0; k < 60 && len(seenS) < 14; k++ {
+						b := 40
+						m := sampleMatch(rng, ast, nil, &b)
+						if !seenS[string(m)] {
+							seenS[string(m)] = true
+							hays = append(hays, m, append(append([]byte("zz "), m...), "; "...))
+						}
+					}
+				}
 				var local []dis
-				for _, cf := range cfgs {
+				// besides the fixed lattice, every pattern gets one configuration whose numeric limits rotate with the pattern index, so
+				// that a run sweeps EVERY small value of every limit (a limit is typically mishandled at one exact value: a closure that
+				// lands on DeterminizationLimit, an alternation with MaxLiterals+1 branches, a literal of MinLiteralLen-1 bytes)
+				rot := base
+				rot.DeterminizationLimit = 10 + (i*7)%54
+				rot.MaxDFAStates = uint32(1 + (i*5)%48)
+				rot.MaxLiterals = 1 + (i*3)%20
+				rot.MinLiteralLen = 1 + i%4
+				pcfgs := cfgs
+				if rot.Validate() == nil {
+					pcfgs = append(append([]cfgT(nil), cfgs...), cfgT{fmt.Sprintf("DeterminizationLimit=%d,MaxDFAStates=%d,MaxLiterals=%d,MinLiteralLen=%d", rot.DeterminizationLimit, rot.MaxDFAStates, rot.MaxLiterals, rot.MinLiteralLen), rot},
+						cfgT{fmt.Sprintf("DeterminizationLimit=%d", rot.DeterminizationLimit), func() meta.Config { c := base; c.DeterminizationLimit = rot.DeterminizationLimit; return c }()},
+						cfgT{fmt.Sprintf("MaxLiterals=%d", rot.MaxLiterals), func() meta.Config { c := base; c.MaxLiterals = rot.MaxLiterals; return c }()})
+				}
+				for _, cf := range pcfgs {
 					var cx *coregex.Regex
 					if guard(10*time.Second, func() string {
 						var e error
